@@ -39,7 +39,7 @@ WAIT = 25
 FINAL_WAIT = 300
 NACK_REASONS = [50, 100, 150]
 
-# Interest specs: (uri, can_be_prefix, digest)   digest: None | 'good' (hash of DATAS[0]) | 'bad'
+# Interest specs: (uri, can_be_prefix, digest)   digest: None | 'good' (hash of DATAS[0]) | 'good1' (hash of DATAS[1]) | 'bad'
 SPECS = [
     ('/a/b', False, None),      # 0
     ('/a/b', True, None),       # 1
@@ -48,6 +48,7 @@ SPECS = [
     ('/a/b', False, 'good'),    # 4
     ('/a', False, None),        # 5
     ('/a/b', False, 'bad'),     # 6
+    ('/a/b', False, 'good1'),   # 7: /a/b + the hash of DATAS[1] (= Data /a/b/c): names no packet; a hash match alone is no match
 ]
 # Data menu: (uri, content)
 DATAS = [
@@ -72,6 +73,8 @@ def spec_name(k):
         return enc.Name.normalize(uri)
     if dg == 'good':
         return al.implicit_name(uri, data_wires()[0])
+    if dg == 'good1':
+        return al.implicit_name(uri, data_wires()[1])
     return enc.Name.normalize(uri) + [enc.Component.from_bytes(b'\x11' * 32, enc.Component.TYPE_IMPLICIT_SHA256)]
 
 
@@ -87,7 +90,7 @@ def matches(k: int, j: int) -> bool:
     dname = enc.Name.normalize(DATAS[j][0])
     if dg is not None:
         # full name = name + digest: exact match on the name and on the hash of the packet
-        return iname == dname and dg == 'good' and j == 0
+        return iname == dname and ((dg == 'good' and j == 0) or (dg == 'good1' and j == 1))
     if iname == dname:
         return True
     return cbp and len(dname) > len(iname) and dname[:len(iname)] == iname
@@ -547,6 +550,13 @@ SEEDS = [
     ('v2', 50, (('E', 0), ('D', 0), ('W', None), ('E', 0), ('W', None), ('D', 0))),
     ('v1', 0, (('E', 0), ('E', 0), ('C', 0), ('W', None), ('N', 1), ('W', None))),
     ('v2', 10, (('E', 1), ('E', 2), ('XD', 1), ('W', None), ('C', 0), ('S', None))),
+    # an Interest /a/b/<hash of Data /a/b/c> (no CanBePrefix): the longer Data must not complete it, with and without a
+    # CanBePrefix Interest on the same name that the Data does complete
+    ('v2', 0, (('E', 7), ('D', 1), ('W', None), ('W', None))),
+    ('v1', 0, (('E', 7), ('D', 1), ('W', None), ('W', None))),
+    ('v2', 0, (('E', 7), ('E', 1), ('D', 1), ('W', None), ('W', None))),
+    ('v1', 0, (('E', 1), ('E', 7), ('D', 1), ('W', None), ('W', None))),
+    ('v2', 10, (('E', 7), ('E', 4), ('D', 0), ('D', 1), ('W', None), ('W', None))),
 ]
 
 
